@@ -834,7 +834,7 @@ func runScenario(r *lib.Run, idx int) {
 		r.Count("scenarios_without_pruning(retention>chain / min-age / l1 never below head)", 1)
 		r.Case(fmt.Sprintf("nop-%s-r%d-age%d-%s", cfg.Backend, cfg.Retained, cfg.MinAgeH, cfg.Profile))
 	}
-	if idx < 4 {
+	if w.floorMoved > 1 && w.images > 0 {
 		st := w.steps
 		if len(st) > 40 {
 			st = append(append([]string{}, st[:40]...), fmt.Sprintf("... %d more", len(w.steps)-40))
